@@ -19,11 +19,14 @@ SHARED = {
     "C06": [("C04", "R1.", "the exchange hash and session id are what the keys are bound to (RFC 4253 s7.2)"),
             ("C35", "R3.ecdsa-hash-follows-curve-size", "the host-key signature over H is checked with the hash the curve prescribes")],
     "C08": [("C39", "R4.", "the range checks see the integer the peer sent only if mpint decoding keeps its sign")],
-    "C11": [("C10", "R5.need-rekey-only-when-idle", "a re-key started while a packet is half read loses traffic in flight")],
-    "C12": [("C09", "R5.reset-under-strict", "sequence numbers stay aligned across NEWKEYS so that the UNIMPLEMENTED reply names the right packet"),
+    "C11": [("C10", "R2.", "traffic in flight behind a re-key request is tolerated up to the overflow allowance, counted from the request"),
+            ("C10", "R5.need-rekey-only-when-idle", "a re-key started while a packet is half read loses traffic in flight")],
+    "C12": [("C39", "R1.pair-agreement:add_int", "the sequence number in UNIMPLEMENTED is a plain uint32 whatever its value"),
+            ("C09", "R5.reset-under-strict", "sequence numbers stay aligned across NEWKEYS so that the UNIMPLEMENTED reply names the right packet"),
             ("C01", "R2.msg-seqno", "the sequence number echoed in UNIMPLEMENTED is the packet's own"),
             ("C38", "R2.peer-data-operation-guarded:Packetizer.read_message", "reading a packet of an unknown type must not raise: the session would end instead of answering", "zero-expected")],
-    "C15": [("C14", "R1.grant-under-success", "the authenticated flag that opens the gate is set only on the success path")],
+    "C15": [("C14", "R2.gss-claim-needs-mic-check", "the authenticated flag that opens the gate is granted only after a completed proof check"),
+            ("C14", "R1.grant-under-success", "the authenticated flag that opens the gate is set only on the success path")],
     "C17": [("C41", "R3.", "the host key is looked up under the name the user connected to"),
             ("C36", "R2.fields-cover-the-encoded-public-numbers", "key equality used to accept the server's key compares every public number")],
     "C21": [("C01", "R8.compression-activation", "payload bytes arrive intact only if both ends (re)start compression together"),
@@ -37,4 +40,7 @@ SHARED = {
     "C33": [("C39", "R1.pair-agreement", "64-bit sizes are read with the encoding they were written with")],
     "C35": [("C39", "R4.", "r and s survive the mpint encoding inside the signature blob")],
     "C38": [("C18", "R4.", "server-only requests reaching a client are refused instead of dereferencing a missing server object")],
+    "C09": [("C01", "R2.seq-increment", "the rollover guard fires on the wrap of the inbound counter: a KEXINIT after 2**32 packets must not look like the first packet")],
+    "C10": [("C11", "R4.gated-sender-tests-gate-under-lock", "user traffic is held back from the moment our KEXINIT goes out: a send that slips past the gate makes the peer drop the session and the re-key never completes")],
+    "C13": [("C11", "R5.no-gated-send-under-channel-lock", "a send that can block is never made under the channel lock the teardown path needs: the transport thread could not mark the connection ended")],
 }
